@@ -2,15 +2,24 @@
 import collections
 import random
 
-from . import swrap, problems, monitors
+from . import drivers, swrap, problems, monitors
 from .common import hexd
 
 DERIV_FREE = set(problems.DERIV_FREE_LOCAL + [g for g in problems.GLOBAL if "_GN_" in g] +
                  ["NLOPT_GN_MLSL", "NLOPT_GN_MLSL_LDS", "NLOPT_LN_AUGLAG", "NLOPT_LN_AUGLAG_EQ"])
 
 
+DRIVER_MODULES = ["DrvEsch", "DrvIsres", "DrvCrs", "DrvNm"]
+
+
+def drv(regex):
+    """the theorems of the driver control-flow models (Props/Drv*.lean) that bear on a property, selected by name"""
+    return ["%s:%s" % (m, regex) for m in DRIVER_MODULES]
+
+
 def setup(ctx, props, extra_translators=()):
     """lean stage + repo build; returns (bdir, Algs) or (None, None)"""
+    ctx.driver_models = any(p.split(":")[0] in DRIVER_MODULES for p in props)
     ctx.bdir = ctx.repo_stage()
     ctx.lean_stage(props, translators=list(extra_translators))
     bdir = ctx.bdir
@@ -63,6 +72,11 @@ def run_batch(ctx, bdir, A, plist, mons, name, replay=True, variant="hooks", env
         except Exception as e:
             ctx.broke("wrap model driver", repr(e))
     ctx.corr[name] = c
+    if getattr(ctx, "driver_models", False) and variant == "hooks":
+        try:
+            drivers.correspond(ctx, out, name)
+        except Exception as e:
+            ctx.broke("driver model correspondence", repr(e))
     return out
 
 
